@@ -571,10 +571,14 @@ func (ev *evalCtx) call(e *SExpr) Val {
 		if snap == nil {
 			return ev.fail("loopentry: loop %d not entered", e.Args[0].Int)
 		}
-		save := ev.heap
+		save, saveC := ev.heap, ev.cnt
 		ev.heap = snap
+		ev.cnt = ev.fr.loopEntryCnt[int(e.Args[0].Int)]
+		if ev.cnt == nil {
+			ev.cnt = map[string]string{}
+		}
 		v := ev.eval(e.Args[1])
-		ev.heap = save
+		ev.heap, ev.cnt = save, saveC
 		return v
 	}
 	if sig, ok := prelude.funcs[e.Name]; ok {
